@@ -156,6 +156,29 @@ let handle (line : string) : string =
        | Inr NValue -> "valueerror")
   | ["escape"; isb; p] -> enc_str (escape (dec_bool isb) (dec_str p))
   | ["ismagic"; isb; fl; p] -> enc_bool (is_magic (dec_bool isb) (z_of_int (int_of_string fl)) (dec_str p))
+  | ["wcwalk"; follow; aborted; root; lst; lk; vfo; vfi; mk; sk] ->
+      (* lst: dir=d1,d2|f1,f2 ; ... (ERR for None); lk: path:0/1; vfo/vfi: base|name:res:kill ; mk/sk: base|name:kill *)
+      let split c s = if s = "" || s = "[]" then [] else String.split_on_char c s in
+      let strs s = List.map dec_str (split ',' s) in
+      let lstt = List.map (fun e -> match String.split_on_char '=' e with
+          | [k; v] -> (dec_str k, if v = "ERR" then None else
+                        (match String.split_on_char '|' v with [a; b] -> Some (strs a, strs b) | _ -> failwith "lst"))
+          | _ -> failwith "lst") (split ';' lst) in
+      let lkt = List.map (fun e -> match String.split_on_char ':' e with [k; v] -> (dec_str k, v = "1") | _ -> failwith "lk") (split ';' lk) in
+      let key e = (match String.split_on_char '|' e with [b; n] -> (dec_str b, dec_str n) | _ -> failwith "key") in
+      let tab3 s = List.map (fun e -> match String.split_on_char ':' e with [k; r; kl] -> (key k, (r, kl = "1")) | _ -> failwith "t3") (split ';' s) in
+      let tab2 s = List.map (fun e -> match String.split_on_char ':' e with [k; kl] -> (key k, kl = "1") | _ -> failwith "t2") (split ';' s) in
+      let vfot = tab3 vfo and vfit = tab3 vfi and mkt = tab2 mk and skt = tab2 sk in
+      let find t k = (try List.assoc k t with Not_found -> raise Exit) in
+      let findd t k dflt = (try List.assoc k t with Not_found -> dflt) in
+      (try
+        let r = imatch (fun p -> find lstt p) (fun p -> findd lkt p false) (dec_bool follow)
+                  (fun b n -> let (r, k) = find vfot (b, n) in (r = "1", k))
+                  (fun b n -> let (r, k) = find vfit (b, n) in ((if r = "V" then FValid else if r = "I" then FInvalid else FRaised), k))
+                  (fun b n -> findd mkt (b, n) false) (fun b n -> findd skt (b, n) false)
+                  (nat_of_int 100) (dec_str root) (dec_bool aborted) in
+        Printf.sprintf "ok %s %d %d %s" (enc_list (fun (b, n) -> enc_str b ^ "|" ^ enc_str n) r.w_out) (int_of_nat r.w_skipped) (int_of_nat r.w_visited) (enc_bool r.w_abort)
+      with Exit -> "oraclemiss")
   | ["listed"; cfgbits; sd; cur; donly; gf] ->
       let bit i = cfgbits.[i] = '1' in
       let cf = { g_dot = bit 0; g_follow = bit 1; g_cs = bit 2; g_mark = bit 3; g_nounique = bit 4; g_pathlib = bit 5; g_has_excl = bit 6 } in
